@@ -86,6 +86,10 @@ func (c *ctx) tag(k string) { c.hist[k]++ }
 
 func main() {
 	log.SetOutput(io.Discard) // the code under test logs per request; answers go to files
+	if len(os.Args) >= 3 && os.Args[1] == "child" && os.Args[2] == "survive" {
+		fmt.Println(surviveChild(os.Args[3:]))
+		return
+	}
 	if len(os.Args) < 5 || (os.Args[1] != "gen" && os.Args[1] != "exec") {
 		names := []string{}
 		for n := range streams {
